@@ -4,6 +4,7 @@ Everything derives from the rng handed in."""
 import copy
 import json
 import os
+import re
 import shutil
 
 LOCALES = ["en", "fr", "de"]
@@ -51,6 +52,9 @@ def base_content(rng):
 
 
 def project(cls, content, cargo_text=None, raw_files=None, note=None):
+    if cargo_text is None and not raw_files and all(isinstance(t, dict) for t in content.values()):
+        p = placed(cls, content, "flat", note)
+        return p
     files = {}
     for loc, tree in content.items():
         files["locales/%s.json" % loc] = tree if isinstance(tree, str) else json.dumps(tree, ensure_ascii=False, indent=1)
@@ -58,6 +62,67 @@ def project(cls, content, cargo_text=None, raw_files=None, note=None):
         files.update(raw_files)
     return {"cls": cls, "cargo": cargo_text if cargo_text is not None else cargo(locales=list(content.keys()) or ["en"]),
             "files": files, "note": note}
+
+
+# ------------------------------------------------------------------ placements
+# where the faulty content lives: every fault class whose cause is inside a locale file is crossed with these
+PLACEMENTS = ["flat", "subkeys", "ns-first", "ns-last", "non-default", "inherits"]
+FK = re.compile(r"\$t\(\s*([A-Za-z_][A-Za-z0-9_.-]*)")
+
+
+def retarget(v, f):
+    """rewrite the target of every `$t(path` (paths without namespace) in the strings of a content tree"""
+    if isinstance(v, str):
+        return FK.sub(lambda m: "$t(" + f(m.group(1)), v)
+    if isinstance(v, list):
+        return [retarget(x, f) for x in v]
+    if isinstance(v, dict):
+        return {k: retarget(x, f) for k, x in v.items()}
+    return v
+
+
+def benign(v):
+    """the same key structure holding plain strings (used for the locales that must not carry the fault)"""
+    if isinstance(v, dict):
+        return {k: benign(x) for k, x in v.items()}
+    return "v"
+
+
+def placed(cls, content, placement, note=None):
+    """content: {locale: tree} written for a flat project whose default locale is `en`"""
+    locs = list(content.keys()) or ["en"]
+    files, cargo_text = {}, None
+    c = copy.deepcopy(content)
+    if placement == "subkeys":
+        c = {l: {"grp": {"inner": retarget(t, lambda n: "grp.inner." + n)}, "plain": "p"} for l, t in c.items()}
+    if placement in ("ns-first", "ns-last"):
+        ns = ["nsa", "nsb"]
+        mine = ns[0] if placement == "ns-first" else ns[1]
+        other = ns[1] if placement == "ns-first" else ns[0]
+        for l, t in c.items():
+            files["locales/%s/%s.json" % (l, mine)] = json.dumps(retarget(t, lambda n: mine + ":" + n), ensure_ascii=False, indent=1)
+            files["locales/%s/%s.json" % (l, other)] = json.dumps({"unit": "u", "k_one": "one $t(%s:unit)" % other, "k_other": "{{ count }} $t(%s:unit)" % other})
+        cargo_text = cargo(locales=locs, namespaces=ns)
+    elif placement == "non-default":
+        # the default locale is a new, benign one; the faulty files belong to the other locales
+        d = "xx"
+        files["locales/%s.json" % d] = json.dumps(benign(c[locs[0]]), ensure_ascii=False)
+        for l, t in c.items():
+            files["locales/%s.json" % l] = json.dumps(t, ensure_ascii=False, indent=1)
+        cargo_text = cargo(default=d, locales=[d] + locs)
+    elif placement == "inherits":
+        d = "xx"
+        files["locales/%s.json" % d] = json.dumps(benign(c[locs[0]]), ensure_ascii=False)
+        files["locales/yy.json"] = json.dumps(benign(c[locs[0]]), ensure_ascii=False)
+        for l, t in c.items():
+            files["locales/%s.json" % l] = json.dumps(t, ensure_ascii=False, indent=1)
+        cargo_text = cargo(default=d, locales=[d, "yy"] + locs, extra="inherits = { %s }\n" % ", ".join('%s = "yy"' % l for l in locs))
+    else:
+        for l, t in c.items():
+            files["locales/%s.json" % l] = json.dumps(t, ensure_ascii=False, indent=1)
+        cargo_text = cargo(locales=locs)
+    return {"cls": cls if placement == "flat" else "%s@%s" % (cls, placement), "cargo": cargo_text, "files": files, "note": note,
+            "content": content, "placement": placement}
 
 
 def with_key(base, key, en_val, fr_val="__same__", cls="x", note=None):
@@ -188,6 +253,15 @@ def named_cases(rng):
     out.append(project("kind-mismatch", {"en": {"d_one": "a", "d_ordinal_two": "b", "d_other": "c"}}))
     out.append(project("kind-mismatch", {"en": {"d_one": [["a", 0], ["b"]], "d_other": "c"}}))
     out.append(project("fk-target", {"en": {"s": {"a": "x"}, "k": "$t(s)", "k2": "$t(s.a.b)", "k3": "$t(nope)", "k4": "$t(ns:s.a)", "k5": "$t(:)", "k6": "$t(.)", "k7": "$t(s.)"}}))
+    # a lone `key_other` (merged because another locale declares the plural) holding a foreign key, and plural forms under subkeys
+    out.append(project("fk-in-plural", {"en": {"unit": "u", "items_one": "one $t(unit)", "items_other": "{{ count }} $t(unit)"},
+                                        "fr": {"unit": "u", "items_other": "{{ count }} $t(unit)"}}))
+    out.append(project("fk-in-plural", {"en": {"unit": "u", "s": {"t": {"items_one": "one $t(unit)", "items_other": "$t(s.t.items)"}}}}))
+    # every class whose cause is inside a locale file, in every placement
+    for q in list(out):
+        if "content" in q:
+            for pl in PLACEMENTS[1:]:
+                out.append(placed(q["cls"], q["content"], pl, q.get("note")))
     for nm, txt in CONFIGS:
         p = project("config:" + nm, b, cargo_text=txt)
         out.append(p)
@@ -207,8 +281,37 @@ def named_cases(rng):
 
 
 def random_case(rng):
+    p = random_flat_case(rng)
+    if "content" in p and rng.random() < 0.5:
+        return placed(p["cls"], p["content"], rng.choice(PLACEMENTS[1:]), p.get("note"))
+    return p
+
+
+def fk_mix(rng):
+    """foreign keys inside plural forms (full groups, lone `_other`, ordinal), inside range branches, with arguments, to each other"""
+    tgt = rng.choice(["unit", "items", "r", "lone", "sub.deep.leaf", "nope", "hello"])
+    arg = rng.choice(["", ', {"count": 1}', ', {"count": "{{ n }}"}', ', {"name": "x"}'])
+    fk = "$t(%s%s)" % (tgt, arg)
+    en = {"unit": "u", "hello": "Hello {{ name }}", "sub": {"deep": {"leaf": "leaf"}},
+          "items_one": rng.choice(["one " + fk, "one"]), "items_other": rng.choice(["{{ count }} " + fk, "{{ count }}"]),
+          "r": [[rng.choice([fk, "zero"]), 0], [rng.choice([fk, "{{ count }}"])]],
+          "lone_other": rng.choice([fk, "l {{ count }}"])}
+    if rng.random() < 0.4:
+        en["pos_ordinal_one"], en["pos_ordinal_other"] = "{{ count }}st " + fk, "{{ count }}th"
+    fr = {"unit": "u", "hello": "Bonjour {{ name }}", "sub": {"deep": {"leaf": "feuille"}},
+          "items_other": rng.choice(["{{ count }} " + fk, None, "x"]), "r": None if rng.random() < 0.5 else [[fk, 0], ["f"]],
+          "lone_one": "un " + fk, "lone_other": "{{ count }} " + fk}
+    if rng.random() < 0.5:
+        fr["items_one"] = rng.choice(["un " + fk, None])
+    return project("fk:mix", {"en": en, "fr": fr})
+
+
+def random_flat_case(rng):
     b = base_content(rng)
     r = rng.random()
+    if r < 0.12:
+        return fk_mix(rng)
+    r = (r - 0.12) / 0.88
     key = rng.choice(["k", "hello", "zz", "items_one", "sub", "r", "x"])
     if r < 0.20:
         s = " ".join(rng.choice(UNBALANCED + MULTIBYTE) for _ in range(rng.randint(1, 3)))
